@@ -71,6 +71,9 @@ inductive FK where
   | hexOne                 -- HIP hit: `unhexlify(tok.get_string())`, one token
   | b64One                 -- HIP key, TKEY key, TSIG mac: `b64decode(tok.get_string())`, one token, printed without chunking
   | nameRaw                -- TKEY/TSIG algorithm: `tok.get_name(relativize=False)` (no origin); printed with the style
+  | gpos (lim : Option (Nat × Nat))
+                           -- GPOS latitude / longitude / altitude: `get_string` → `_as_bytes(…, 255)` →
+                           -- `_validate_float_string`; `lim = some (B, k)`: `float(s)` within ±B, i.e. |s| ≤ B + 2^-(k+1)·… (see `gposCheck`)
   | rcode                  -- TSIG error: `dns.rcode.from_text(get_string)`, printed `dns.rcode.to_text(error, True)`
   deriving DecidableEq, Repr
 
@@ -153,6 +156,7 @@ def printField (st : Style) : FK → FV → Option Text
     | .ok t => some t
     | .error _ => none
   | .rcode, .n v => some (enumToText ConstsC05.rcodeTsigTexts [] v)
+  | .gpos _, .b s => some s     -- `.decode()`: validated strings are ASCII digits, sign, dot
   | _, _ => none
 
 def printFields (st : Style) : List FK → List FV → Option (List Text)
@@ -321,7 +325,36 @@ def encodeMax (maxBytes : Option Nat) (v : List Nat) : Option Bytes :=
 def euiDashesOk (v : List Nat) (n : Nat) : Bool :=
   (List.range (n - 1)).all fun i => v[3 * i + 2]? == some 45
 
+/-- `_validate_float_string` on the text after an optional sign: digits, or digits around exactly one dot with a digit on
+at least one side.  The value is `N / 10^d`. -/
+def floatStr (s : Bytes) : Option (Nat × Nat) :=
+  match s with
+  | [] => none
+  | c :: r =>
+    let body := if c = 45 ∨ c = 43 then r else c :: r
+    if body ≠ [] ∧ body.all isDigit then some (decVal body, 0)
+    else match splitOn 46 body with
+      | [l, r] =>
+        if l = [] ∧ r = [] then none
+        else if l.all isDigit ∧ r.all isDigit then some (decVal (l ++ r), r.length) else none
+      | _ => none
+
+/-- GPOS constructor validation.  `float(s)` is the correctly rounded binary64 value of the decimal `N / 10^d`
+(CPython's `float()` is correctly rounded); `B = 90` and `180` have even significands, so the rounded value exceeds `B`
+exactly when `N / 10^d > B + ulp/2` with `ulp/2 = 2^-k` (`k = 47` for 90 in [64,128), `46` for 180 in [128,256)); the sign
+is symmetric.  The character test is implied by `_validate_float_string` and stated first. -/
+def gposCheck (lim : Option (Nat × Nat)) (s : Bytes) : Bool :=
+  s.all (fun c => isDigit c || c == 43 || c == 45 || c == 46) &&
+  match floatStr s with
+  | none => false
+  | some (n, d) => match lim with
+    | none => true
+    | some (b, k) => !(decide (n * 2 ^ k > (b * 2 ^ k + 1) * 10 ^ d))
+
 def parseFieldExtra : FK → Tok → Option FV
+  | .gpos lim, t => match unescapeCP t.val with
+    | some v => if v.length > 255 then none else if gposCheck lim v then some (.b v) else none
+    | none => none
   | .eui n, t => match unescapeCP t.val with
     | some v =>
       if v.length ≠ 3 * n - 1 then none
@@ -707,6 +740,7 @@ def schemaOf : String → Option Schema
   | "CSYNC" => some ⟨[u32, u16], .bitmap, noCheck, true⟩
   | "NSEC3" => some ⟨[u8, u8, u16, .salt, .b32hex], .bitmap, noCheck, true⟩
   | "RRSIG" | "SIG" => some ⟨[.rdtype, .algo, u8, .ttl, .sigtime, .sigtime, u16, .name], .b64 false, noCheck, true⟩
+  | "GPOS" => some ⟨[.gpos (some (90, 47)), .gpos (some (180, 46)), .gpos none], .none, noCheck, true⟩
   | "WKS" => some ⟨[], .wks, noCheck, false⟩
   | "APL" => some ⟨[], .apl, noCheck, false⟩
   | "IPSECKEY" => some ⟨[u8, u8, u8], .gateway 1 (some 2), noCheck, false⟩
@@ -718,7 +752,7 @@ def modelledTypes : List String :=
    "TXT", "SPF", "AVC", "NINFO", "RESINFO", "WALLET", "HINFO", "X25", "ISDN", "NAPTR", "CAA", "URI", "DS", "DLV", "CDS",
    "TLSA", "SMIMEA", "SSHFP", "ZONEMD", "DNSKEY", "CDNSKEY", "DHCID", "OPENPGPKEY", "BRID", "HHIT", "L32", "NSEC3PARAM",
    "CH-A", "EUI48", "EUI64", "NID", "L64", "NSAP", "CERT", "DSYNC", "KEY", "RRSIG", "SIG", "NSEC", "CSYNC", "NSEC3", "HIP", "TKEY", "TSIG",
-   "IPSECKEY", "AMTRELAY", "APL", "WKS"]
+   "IPSECKEY", "AMTRELAY", "APL", "WKS", "GPOS"]
 
 /-! ## wire form of the schema fields (needed by the generic syntax of known types) -/
 
@@ -762,6 +796,11 @@ def encField (origin : Option Name) : FK → FV → Option Bytes
   | .keyProto, .n v => packGuard (decide (v < 256)) [v]
   | .sigtime, .n v => packGuard (decide (v < 4294967296)) (beBytes 4 v)
   | .b32hex, .b s => packGuard (decide (s.length < 256)) (s.length :: s)
+  | .gpos _, .b s => packGuard (decide (s.length < 256)) (s.length :: s)
+  -- TSIG (the only type whose wire form uses these three in schema order; HIP and TKEY put lengths elsewhere):
+  | .nameRaw, .nm n => encName origin n
+  | .b64One, .b s => some s          -- the MAC; its 16-bit length is the preceding field
+  | .rcode, .n v => packGuard (decide (v < 65536)) (beBytes 2 v)
   | _, _ => none
 
 /-- CAA's value and URI's target are not length-prefixed: they are the rest of the rdata -/
@@ -780,7 +819,30 @@ def encFields (tname : String) (origin : Option Name) : Nat → List FK → List
     | _, _ => none
   | _, _, _ => none
 
-def encTail : TK → Option FV → Option Bytes
+/-- APL item: trailing zero octets of the address are not sent -/
+def trimZeros (a : Bytes) : Bytes := (a.reverse.dropWhile (· == 0)).reverse
+
+/-- `APLItem.to_wire`: `!HBB` family, prefix, negation bit + length, then the trimmed address -/
+def encAplItem (it : Nat × Bool × Bytes × Nat) : Option Bytes :=
+  let a := trimZeros it.2.2.1
+  packGuard (decide (it.1 < 65536) && decide (it.2.2.2 < 256) && decide (a.length < 128))
+    (beBytes 2 it.1 ++ [it.2.2.2, a.length + (if it.2.1 then 128 else 0)] ++ a)
+
+def encAplItems : List (Nat × Bool × Bytes × Nat) → Option Bytes
+  | [] => some []
+  | it :: r => match encAplItem it, encAplItems r with
+    | some a, some b => some (a ++ b)
+    | _, _ => none
+
+/-- `util.Gateway.to_wire`: nothing / the address octets / the name (uncompressed, against the origin) -/
+def encGateway (origin : Option Name) (kind : Nat) (addr : List Nat) (nm : Name) : Option Bytes :=
+  if kind = 0 then some []
+  else if kind = 1 then ip4Aton addr
+  else if kind = 2 then ip6Aton addr
+  else if kind = 3 then encName origin nm
+  else none
+
+def encTail (origin : Option Name) : TK → Option FV → Option Bytes
   | .none, none => some []
   | .hex, some (.b d) => some d
   | .b64 _, some (.b d) => some d
@@ -789,10 +851,14 @@ def encTail : TK → Option FV → Option Bytes
     packGuard (ws.all fun w => decide (w.1 < 256) && decide (w.2.length < 256)) (ws.flatMap fun w => w.1 :: w.2.length :: w.2)
   | .txt, some (.bl ss) => packGuard (ss.all fun s => decide (s.length < 256)) (ss.flatMap fun s => s.length :: s)
   | .optCstr, some (.b s) => packGuard (decide (s.length < 256)) (if s = [] then [] else s.length :: s)
+  | .tsigOther, some (.b d) => some d     -- TSIG other data; its 16-bit length is the last prefix field
+  | .wks, some (.wks addr proto bm) => packGuard (decide (addr.length = 4) && decide (proto < 256)) (addr ++ proto :: bm)
+  | .apl, some (.apl items) => encAplItems items
+  | .gateway _ _, some (.gw kind addr nm key) => (encGateway origin kind addr nm).map (· ++ key)
   | _, _ => none
 
 def encRec (tname : String) (sch : Schema) (origin : Option Name) (vals : List FV) (tail : Option FV) : Option Bytes :=
-  match encFields tname origin 0 sch.fields vals, encTail sch.tail tail with
+  match encFields tname origin 0 sch.fields vals, encTail origin sch.tail tail with
   | some a, some b => some (a ++ b)
   | _, _ => none
 
@@ -843,6 +909,12 @@ def decFields (tname : String) (w : Bytes) (origin : Option Name) : Nat → Nat 
       | .sigtime => if cur + 4 ≤ w.length then some (.n (beVal ((w.drop cur).take 4)), cur + 4) else none
       | .b32hex => match w[cur]? with
           | some l => if cur + 1 + l ≤ w.length then some (.b ((w.drop (cur + 1)).take l), cur + 1 + l) else none
+          | none => none
+      | .gpos lim => match w[cur]? with
+          | some l =>
+            if cur + 1 + l ≤ w.length then
+              (if gposCheck lim ((w.drop (cur + 1)).take l) then some (.b ((w.drop (cur + 1)).take l), cur + 1 + l) else none)
+            else none
           | none => none
       | .hexOne | .b64One | .nameRaw | .rcode => none   -- types with `wire := false`
     match one with
